@@ -867,7 +867,7 @@ pub fn base_specs(tier: crate::ctx::Tier) -> Vec<(u64, u64, Vec<i64>, i64)> {
 }
 
 pub fn run(c: &mut Ctx) {
-    c.note("rule", json!("per base (merchant, honest history leading to a real pay token, attacked amount): the true statement as positive control, ~40 false variants (public nonce, amount on either balance, state/close disagreement, foreign channel id, close-tag slot, old/new lock, foreign or tampered token, richer old state) and out-of-range variants with the attacker's best digit constraints (residue, all-max, digit outside the alphabet, negative digit), each under strategies {honest-but-lying, answer-as-if-true, post-challenge T-all, post-challenge old_nonce / close_tag commitment scalar}. Distinct = distinct (strategy, field, base, variant) that reached the real allow_payment."));
+    c.note("rule", json!("per base (merchant, honest history leading to a real pay token, attacked amount): the true statement as positive control, ~40 false variants (public nonce, amount on either balance, state/close disagreement, foreign channel id, close-tag slot, old/new lock, foreign or tampered token, richer old state) and out-of-range variants with the attacker's best digit constraints (residue, all-max, digit outside the alphabet, negative digit), each under strategies {honest-but-lying, answer-as-if-true, post-challenge T-all, post-challenge old_nonce / close_tag commitment scalar}. Distinct = distinct (strategy, field, base, variant) that reached the real allow_payment. Added later: a tracker that fires when one pay token is accepted under two public nonces, compensating plans (nonce+1 balanced in another slot), boundary bases, and the closing signature of the old state spent as pay token under a fresh nonce. A token made of curve points outside the prime-order group; the byte-identical blinded token of an earlier accepted proof replayed around another commitment."));
     let nm = c.tier.pick(1usize, 3);
     for mi in 0..nm {
         let m = match fixtures::merchant(c.seed, &format!("m{}", mi)) {
